@@ -96,6 +96,11 @@ class DataFormat(object):
     General data format of a file describing the basic structure.
     """
 
+    # Separators used by formats that have no data format property to change them (Excel and ODS), where numbers
+    # always show up with a "." and without thousands separator.
+    _decimal_separator = "."
+    _thousands_separator = ""
+
     def __init__(self, format_name, location=None):
         r"""
         Create a new data format.
